@@ -18,11 +18,12 @@ echo "suite with patch: passed=$PASS failed-lines=$(grep -E 'test result: FAILED
 if [ -f $D ]; then
   if git apply --check $D 2>>$OUT; then
     git apply $D
-    cargo test --workspace --offline $FILTER 2>&1 | grep -E "^test .* (ok|FAILED)$|^test result" | grep -v " 0 passed; 0 failed" > _seed/demo_with$I.txt
+    cargo test --workspace --no-fail-fast --offline $FILTER 2>&1 | grep -E "^test .* (ok|FAILED)$|^test result" | grep -v " 0 passed; 0 failed" > _seed/demo_with$I.txt
     echo "demo WITH patch: $(grep -c FAILED$ _seed/demo_with$I.txt) failing tests, $(grep -c ' ok$' _seed/demo_with$I.txt) passing" | tee -a $OUT
+    grep FAILED$ _seed/demo_with$I.txt | head -5 >> $OUT
     # now without the patch
     git apply -R $P
-    cargo test --workspace --offline $FILTER 2>&1 | grep -E "^test .* (ok|FAILED)$|^test result" | grep -v " 0 passed; 0 failed" > _seed/demo_without$I.txt
+    cargo test --workspace --no-fail-fast --offline $FILTER 2>&1 | grep -E "^test .* (ok|FAILED)$|^test result" | grep -v " 0 passed; 0 failed" > _seed/demo_without$I.txt
     echo "demo WITHOUT patch: $(grep -c FAILED$ _seed/demo_without$I.txt) failing tests, $(grep -c ' ok$' _seed/demo_without$I.txt) passing" | tee -a $OUT
   else
     echo "demo diff does not apply" | tee -a $OUT
